@@ -1,4 +1,4 @@
-// C07 -- no log file outgrows the size limit; records are never split (DESIGN 3, C07)
+// C06 -- retention bounds the file count and deletes only the oldest rotated files (DESIGN 3, C06)
 //@ tus sinks/rotatingfilesink.cpp sinks/filesink.cpp sinks/iodevicesink.cpp
 //@ lower RotatingFileSink::send RotatingFileSink::RotatingFileSinkPrivate::init RotatingFileSink::RotatingFileSinkPrivate::rotateIfNeeded
 //@ lower RotatingFileSink::RotatingFileSinkPrivate::rotate RotatingFileSink::RotatingFileSinkPrivate::removeOldFiles RotatingFileSink::RotatingFileSinkPrivate::findRotatedFiles
@@ -6,29 +6,26 @@
 //@ lower RotatingFileSink::RotatingFileSinkPrivate::checkSizeRotation RotatingFileSink::RotatingFileSinkPrivate::checkDailyRotation RotatingFileSink::RotatingFileSinkPrivate::checkStartupRotation
 //@ lower RotatingFileSink::RotatingFileSinkPrivate::baseDir IODeviceSink::send FileSink::file IODeviceSink::device LogMessage::formattedMessage LogMessage::time LogMessage::isFormatted
 //@ enforce RotatingFileSink_send timeout=900
-//@ enforce RotatingFileSink_RotatingFileSinkPrivate_rotate
-//@ enforce RotatingFileSink_RotatingFileSinkPrivate_findNextIndexForDate
+//@ enforce RotatingFileSink_RotatingFileSinkPrivate_rotate timeout=900
 //@ enforce RotatingFileSink_RotatingFileSinkPrivate_findRotatedFiles
 //@ enforce RotatingFileSink_RotatingFileSinkPrivate_removeOldFiles
-#define PROP_C07 1
+#define PROP_C06 1
 #include "contracts/fs_part1.h"
 //@ ---
 #include "contracts/fs_common.h"
-
 #include "contracts/fs_msg.h"
-#define INV7(L) (g_A_size <= (L) || g_A_recs == 1)
 
-/* With a size limit L > 0 and rotation not disabled (N != 1): every file this sink writes is at most L bytes unless it
- * consists of a single record (obligations of the write and rename models), and the record is written whole by ONE write.
- * Stated assumption: the rename of a rotation succeeds (failure: C10) and a UTF-8 locale (A-locale). */
+/* With N >= 2: after every write at most N log files exist; files are removed oldest first (obligation of the remove model, which
+ * needs the list of findRotatedFiles() to be ordered by rotation order: comparator_total); N <= 0: nothing is ever deleted; N == 1: no
+ * rotated file is ever produced; only names of this sink's scheme are renamed to / removed (g_foreign_touched).
+ * Stated assumptions: no I/O failure (C10: a failed remove leaves one file more). */
 void RotatingFileSink_send(RotatingFileSink *self, LogMessage *lmsg)
 __CPROVER_requires(SINK_OK(self) && PRIV_FLAGS(self->d.p) && __CPROVER_is_fresh(lmsg, sizeof(*lmsg)) && MSG_TIED(lmsg) && LEDGER_OK() && LEDGER_RANGE())
-__CPROVER_requires(self->d.p->m_maxFileSize > 0 && self->d.p->m_maxFileCount != 1 && g_L == self->d.p->m_maxFileSize)
-__CPROVER_requires(INV7(g_L) && g_open == 1 && g_A_exists == 1 && g_gz_exists == 0 && IS_BOOL(g_clock_frozen))
+__CPROVER_requires(g_L == self->d.p->m_maxFileSize && g_open == 1 && g_A_exists == 1 && g_gz_exists == 0 && IS_BOOL(g_clock_frozen))
+__CPROVER_requires(self->d.p->m_maxFileCount >= 2 ==> g_R_count <= self->d.p->m_maxFileCount - 1)       /* the bound held after the previous write */
 __CPROVER_assigns(LEDGER_GHOSTS, PRIV_STATE(self->d.p))
-__CPROVER_ensures(INV7(g_L) && LEDGER_OK() && g_gz_exists == 0)
-/* never split: at most one write call, carrying the whole record */
-__CPROVER_ensures(g_writes == __CPROVER_old(g_writes) + 1)
-__CPROVER_ensures(g_open ==> (g_last_write_ok && g_last_write_len == g_msg_utf8 + 1));
-
-
+__CPROVER_ensures(LEDGER_OK() && g_gz_exists == 0)
+__CPROVER_ensures(self->d.p->m_maxFileCount >= 2 ==> 1 + g_R_count <= self->d.p->m_maxFileCount)
+__CPROVER_ensures(self->d.p->m_maxFileCount <= 0 ==> g_removes == __CPROVER_old(g_removes))
+__CPROVER_ensures(self->d.p->m_maxFileCount == 1 ==> (g_renames_ok == __CPROVER_old(g_renames_ok) && g_R_count == __CPROVER_old(g_R_count) && g_removes == __CPROVER_old(g_removes)))
+__CPROVER_ensures(g_foreign_touched == __CPROVER_old(g_foreign_touched));
